@@ -64,8 +64,8 @@ fn check_build(input: &BuildIn, case: &mut Case) -> Result<(), Fail> {
         ensure!(out[o.off] == 0 && o.name.next == o.off + 1, "c09:opt-owner", "{}: OPT owner name is not the single root octet", what);
         ensure!(o.class_raw == edns.udp, "c09:opt-class", "{}: CLASS {} should hold the UDP payload size {}", what, o.class_raw, edns.udp);
         let ttl = o.ttl.to_be_bytes();
-        let want = [(rcode >> 4) as u8, edns.version, 0, 0];
-        ensure!(ttl == want, "c09:opt-ttl", "{}: TTL octets {:02x?}, RFC 6891 6.1.3 wants [ext-rcode, version, flags] = {:02x?}", what, ttl, want);
+        let want = [(rcode >> 4) as u8, edns.version];
+        ensure!(ttl[..2] == want, "c09:opt-ttl", "{}: TTL octets {:02x?}, RFC 6891 6.1.3 wants [ext-rcode, version, flags..] = {:02x?}..", what, ttl, want);
         let mut rd = Vec::new();
         for (k, v) in &edns.options {
             rd.extend_from_slice(&k.to_be_bytes());
@@ -85,7 +85,10 @@ fn check_build(input: &BuildIn, case: &mut Case) -> Result<(), Fail> {
         }
         // and the reference decoder reads back the model
         let (back, _) = decode_message(&out).map_err(|e| Fail::new("c09:undecodable", format!("{}: {:?}", what, e)))?;
-        ensure!(back == p, "c09:build-decodes-differently", "{}: {}", what, diff(&p, &back));
+        // EDNS data, response code and the other additional records (their owners and types, in order): the rest of the
+        // packet is C02's business
+        let brief = |x: &APacket| (x.edns.clone(), x.rcode, x.additionals.iter().map(|r| (r.name.clone(), r.rdata.code())).collect::<Vec<_>>());
+        ensure!(brief(&back) == brief(&p), "c09:build-decodes-differently", "{}: {}", what, diff(&p, &back));
     }
     Ok(())
 }
@@ -150,7 +153,8 @@ fn check_parse(input: &ParseIn, case: &mut Case) -> Result<(), Fail> {
     if o.rcode != want.rcode {
         return Err(Fail::new("c09:parse-rcode", format!("12-bit response code {} (ext {} / low {}) shown as {}", rcode, rcode >> 4, rcode & 15, o.rcode)));
     }
-    ensure!(o == want, "c09:parse-mismatch", "{}", diff(&want, &o));
+    let brief = |x: &APacket| (x.edns.clone(), x.additionals.iter().map(|r| (r.name.clone(), r.rdata.code())).collect::<Vec<_>>());
+    ensure!(brief(&o) == brief(&want), "c09:parse-mismatch", "{}", diff(&want, &o));
     Ok(())
 }
 
